@@ -1,4 +1,4 @@
-import CardVerif.Spec.BettingRules
+import CardModel.Spec.BettingRules
 /-!
 # C03 — `is_action_closed` is the closure rule (`closed_iff_fn`)
 -/
